@@ -161,7 +161,12 @@ fn mh_streams(c: &Value) -> Value {
     let target = Gaussian2D { mean: arr1(&[0.0, 0.0]), cov: arr2(&[[1.0, 0.0], [0.0, 1.0]]) };
     let init = vec![vec![0.25f64, 1.25]; n_chains];
     // (1) the library's IsotropicGaussian
-    let mh = MetropolisHastings::new(target.clone(), IsotropicGaussian::new(1.0f64), init.clone());
+    // the proposal object may have been used before it is handed to the sampler (pending internal state must not be shared)
+    let mut prop0 = IsotropicGaussian::new(1.0f64);
+    for _ in 0..c["pre_used"].as_u64().unwrap_or(0) {
+        let _ = prop0.sample(&[0.0, 0.0]);
+    }
+    let mh = MetropolisHastings::new(target.clone(), prop0, init.clone());
     let mh = match opt_seed(c) {
         Some(s) => mh.seed(s),
         None => mh,
